@@ -580,6 +580,45 @@ def r3_release_complete_and_owned(ctx, mod, sym):
         ctx.floor('R3', 'callers of ' + helper, n, 1)
 
 
+def global_write_sweep(ctx, rule):
+    """No code in pedal/sandbox assigns sys.stdout / sys.modules[...] / time.sleep / builtins.* or calls sys.settrace
+    outside a tracer's __enter__/__exit__: process-wide state is touched through tracked patches only."""
+    # sweep
+    n = 0
+    for m in ctx.repo.modules.values():
+        if not m.name.startswith('pedal.sandbox'):
+            continue
+        for node in ast.walk(m.tree):
+            bad = None
+            if isinstance(node, (ast.Assign, ast.AugAssign, ast.Delete)):
+                tg = node.targets if isinstance(node, (ast.Assign, ast.Delete)) else [node.target]
+                for t in tg:
+                    d = dotted(t)
+                    if d in ('sys.stdout', 'sys.stderr', 'sys.stdin', 'time.sleep', 'sys.modules') or \
+                            (d and d.startswith('builtins.')):
+                        bad = d
+                    if isinstance(t, ast.Subscript) and dotted(t.value) == 'sys.modules':
+                        bad = 'sys.modules[...]'
+            elif isinstance(node, ast.Call):
+                d = call_name(node)
+                if d == 'sys.settrace' or d == 'threading.settrace':
+                    f = enclosing_function(node)
+                    if not (f is not None and f.name in ('__enter__', '__exit__') and m.name == TRACER):
+                        bad = d
+                    n += 1
+                if d in ('sys.modules.update', 'sys.modules.pop', 'sys.modules.clear', 'sys.modules.setdefault',
+                         'setattr') and d != 'setattr':
+                    bad = d
+                if d == 'setattr' and node.args and dotted(node.args[0]) in ('sys', 'builtins', 'time'):
+                    bad = 'setattr(%s, ...)' % dotted(node.args[0])
+            if bad:
+                ctx.fail(rule, 'global-write:%s@%s' % (bad, getattr(enclosing_function(node), '_qualname', m.name)),
+                         m, node, "process-wide state %s is written outside a tracked patch" % bad,
+                         "after the execution %s is not what it was before the call" % bad)
+    ctx.ok(rule, 'sandbox-sweep', sample={'settrace_sites': n})
+    ctx.floor(rule, 'settrace sites seen by the sweep', n, 4)
+
+
 def r4_restorable(ctx, mod):
     ctx.rule('R4', "everything handed to _start_patches is a unittest.mock patch/patch.dict object; no other code in "
                    "pedal/sandbox assigns sys.stdout / sys.modules[...] / time.sleep / builtins.* or calls "
@@ -611,40 +650,7 @@ def r4_restorable(ctx, mod):
     ctx.check(patch_b is not None and patch_b.kind == 'importfrom' and patch_b.target == 'unittest.mock',
               'R4', 'patch-is-unittest.mock', mod, stm, "`patch` is not unittest.mock.patch",
               "restoration is no longer guaranteed by unittest.mock")
-    # sweep
-    n = 0
-    for m in ctx.repo.modules.values():
-        if not m.name.startswith('pedal.sandbox'):
-            continue
-        for node in ast.walk(m.tree):
-            bad = None
-            if isinstance(node, (ast.Assign, ast.AugAssign, ast.Delete)):
-                tg = node.targets if isinstance(node, (ast.Assign, ast.Delete)) else [node.target]
-                for t in tg:
-                    d = dotted(t)
-                    if d in ('sys.stdout', 'sys.stderr', 'sys.stdin', 'time.sleep', 'sys.modules') or \
-                            (d and d.startswith('builtins.')):
-                        bad = d
-                    if isinstance(t, ast.Subscript) and dotted(t.value) == 'sys.modules':
-                        bad = 'sys.modules[...]'
-            elif isinstance(node, ast.Call):
-                d = call_name(node)
-                if d == 'sys.settrace' or d == 'threading.settrace':
-                    f = enclosing_function(node)
-                    if not (f is not None and f.name in ('__enter__', '__exit__') and m.name == TRACER):
-                        bad = d
-                    n += 1
-                if d in ('sys.modules.update', 'sys.modules.pop', 'sys.modules.clear', 'sys.modules.setdefault',
-                         'setattr') and d != 'setattr':
-                    bad = d
-                if d == 'setattr' and node.args and dotted(node.args[0]) in ('sys', 'builtins', 'time'):
-                    bad = 'setattr(%s, ...)' % dotted(node.args[0])
-            if bad:
-                ctx.fail('R4', 'global-write:%s@%s' % (bad, getattr(enclosing_function(node), '_qualname', m.name)),
-                         m, node, "process-wide state %s is written outside a tracked patch" % bad,
-                         "after the execution %s is not what it was before the call" % bad)
-    ctx.ok('R4', 'sandbox-sweep', sample={'settrace_sites': n})
-    ctx.floor('R4', 'settrace sites seen by the sweep', n, 4)
+    global_write_sweep(ctx, 'R4')
 
 
 def r5_tracers(ctx, sym):
